@@ -151,6 +151,7 @@ func runC08(seed uint64, n int, outDir string, replay string) {
 				c08AuxBinding(o, rc.Fork())
 				c08ShareWithBadMix(o, rc.Fork())
 			}
+			c08TemplateBinding(o, rc.Fork())
 			wo := types.EmptyWorkObject(common.ZONE_CTX)
 			fuzzSetters(rc, wo.WorkObjectHeader(), common.Location{0, 0})
 			wh := wo.WorkObjectHeader()
@@ -436,5 +437,52 @@ func c08ShareWithBadMix(o *h.Out, rc *h.Rng) {
 		if vBad != types.Invalid {
 			o.Violate("c08-share-without-verifiable-work-accepted", fmt.Sprintf("a merge-mined share whose donor header carries a mix digest that is not the one of its nonce is classified %d by CheckIfValidWorkShare (Invalid is %d; the same share with the genuine digest: %d)", vBad, types.Invalid, vGood))
 		}
+	}
+}
+
+// c08TemplateBinding: the message the merge-mining template signature covers (AuxTemplate.Hash of the template an AuxPoW
+// converts to) binds the donor header's version - except the low 29 bits of the SHA donor chains, which ASIC-boost
+// miners roll - and its other template fields.  Needs no keys: two proofs that differ in one field must not yield the
+// same message.  Also: a donor coinbase cut short anywhere yields a template or nothing, never a crash.
+func c08TemplateBinding(o *h.Out, rc *h.Rng) {
+	pid := []types.PowID{types.Kawpow, types.SHA_BTC, types.SHA_BCH, types.Scrypt}[rc.Intn(4)]
+	height := uint32(1000 + rc.Intn(800000))
+	out := []byte{0x01, 0, 0, 0, 0, 0, 0, 0, 0, 0x00, 0, 0, 0, 0}
+	seal := cHash(rc)
+	mk := func(version int32, bits uint32, h uint32) *types.AuxPow {
+		ctx := types.NewAuxPowCoinbaseTx(pid, h, out, seal, 1700000000)
+		var prev, mr [32]byte
+		prev[0], mr[0] = 1, 2
+		donor := types.NewBlockHeader(pid, version, prev, mr, 1700000100, bits, 7, h)
+		return types.NewAuxPow(pid, donor, []byte{}, make([]byte, 64), [][]byte{make([]byte, 32)}, ctx)
+	}
+	base := mk(0x20000000, 0x1d00ffff, height)
+	h0 := base.ConvertToTemplate().Hash()
+	o.Count(fmt.Sprintf("template:%d", pid))
+	// low version bits (rolled by SHA miners only)
+	low := mk(0x20000000|int32(1<<uint(2+rc.Intn(20))), 0x1d00ffff, height)
+	if pid != types.SHA_BTC && pid != types.SHA_BCH && low.ConvertToTemplate().Hash() == h0 {
+		o.Violate("c08-template-signature-does-not-bind-donor-version", fmt.Sprintf("pow id %d: two donor headers that differ in a low version bit give the same signed template message", pid))
+	}
+	// the top three version bits bind for every algorithm
+	if top := mk(0x40000000, 0x1d00ffff, height); top.ConvertToTemplate().Hash() == h0 {
+		o.Violate("c08-template-signature-does-not-bind-donor-version", fmt.Sprintf("pow id %d: donor versions 0x20000000 and 0x40000000 give the same signed template message", pid))
+	}
+	if bits := mk(0x20000000, 0x1c00ffff, height); bits.ConvertToTemplate().Hash() == h0 {
+		o.Violate("c08-template-signature-does-not-bind-donor-field", fmt.Sprintf("pow id %d: donor headers that differ in the difficulty bits give the same signed template message", pid))
+	}
+	// truncated donor coinbase
+	full := base.Transaction()
+	for cut := 0; cut < len(full); cut++ {
+		func() {
+			defer func() {
+				if p := recover(); p != nil {
+					o.Violate("c15-truncated-donor-coinbase-crashes", fmt.Sprintf("pow id %d: a donor coinbase cut to %d of %d bytes: panic %v at %s", pid, cut, len(full), p, stackTop()))
+				}
+			}()
+			donor := base.Header()
+			ap := types.NewAuxPow(pid, donor, []byte{}, make([]byte, 64), [][]byte{make([]byte, 32)}, append([]byte{}, full[:cut]...))
+			ap.ConvertToTemplate().VerifySignature()
+		}()
 	}
 }
